@@ -24,11 +24,15 @@ var c17cbStats = ev.New("C17", "c17cb")
 func c17CallbacksBody(c *run.Ctx) {
 	cfg := sim.GenConfig(c.Ch, sim.GenOpts{MaxPlayers: 4, AnteePct: 20, Modes: []int{1, 1, 0}})
 	cfg.MaxDuration = 1
+	for i := range cfg.Players {
+		cfg.Players[i].Chips += 200 * (cfg.Blind.BB + cfg.Blind.Dealer + 1) // deep stacks: the first hand should not end the table
+	}
 	// the options given at creation must reach the engine unchanged: the continue interval
 	// (0 or 1 s, drawn) shows as the time between the last hand's settlement and the
 	// auto-open-end notice that follows the continue step
 	cfg.Interval = c.Ch.Int("interval", 0, 1)
 	contDelay := map[bool]time.Duration{}
+	second := map[bool]bool{} // the run played a hand to settlement after the table's duration was over
 	kindsOf := func(via bool) (map[string]int, string) {
 		k := map[string]int{}
 		var hooks sim.Hooks
@@ -65,6 +69,9 @@ func c17CallbacksBody(c *run.Ctx) {
 		if h.Outcome == "gate" && s.GateArmed != nil {
 			time.Sleep(2100 * time.Millisecond) // ... and one after the table's duration (1 s, whole-second clock) is over
 			h = s.PlayHand(s.PlanSignals(0))
+			if h.Opened != nil && h.SettledT != nil {
+				second[via] = true
+			}
 		}
 		s.Drain()
 		return k, h.Outcome
@@ -81,6 +88,12 @@ func c17CallbacksBody(c *run.Ctx) {
 	}
 	sort.Strings(names)
 	for _, kind := range names {
+		if kind == "autoend" && !(second[false] && second[true]) {
+			// the two runs are different random hands: one of them may have paused after its
+			// first hand (a bust) and never reached the hand that ends after the deadline
+			c.St.Exclude("callbacks_time_up_hand_not_reached_in_both_runs", 1)
+			continue
+		}
 		if mgr[kind] == 0 {
 			c.Failf("C17.callback-not-forwarded."+kind, "%s table, same scenario: the bare engine delivered %d %q callbacks (hand ended: %s), the table created through the Manager none (hand ended: %s); engine %v, manager %v", cfg.Mode, eng[kind], kind, outE, outM, eng, mgr)
 		}
@@ -98,9 +111,12 @@ func c17CallbacksBody(c *run.Ctx) {
 	}
 	labels := []string{"callbacks_" + string(cfg.Mode), fmt.Sprintf("continue_interval_%d", cfg.Interval)}
 	for _, kind := range names {
+		if kind == "autoend" && !(second[false] && second[true]) {
+			continue
+		}
 		labels = append(labels, "callback_"+kind)
 	}
-	c.St.Case(labels, eng["autoend"] > 0, fmt.Sprintf("%s:%s:%d", cfg.Mode, strings.Join(names, ","), len(cfg.Players)), nil)
+	c.St.Case(labels, eng["autoend"] > 0 && second[true], fmt.Sprintf("%s:%s:%d", cfg.Mode, strings.Join(names, ","), len(cfg.Players)), nil)
 }
 
 func TestC17Callbacks(t *testing.T) {
